@@ -39,10 +39,14 @@ CHECKS.update({
              'obligations show the abstraction relation R_F(S,p) is '
              'inductive over chunks and that format_match, complete, '
              'virtual_size and the safety_check outcome are the spec '
-             'functions of the stream prefix, with pure observers. VHDX and '
-             'VMDK (pointer-located regions) and the wrapper-level '
-             'composition are covered by separate contract files as they '
-             'are built; see DESIGN.md status table.',
+             'functions of the stream prefix, with pure observers. VHDX: the '
+             'two table walks (loop invariants, bounded quantifiers over '
+             'every table size) and post_process; VMDK: post_process of the '
+             'sparse-header path class (relocation, footer region, '
+             'idempotence); wrapper feeding (C06 contracts). BOUNDED, not '
+             'proved: the class-level chunk-sequence induction for VHDX/VMDK '
+             'and wrapper end-to-end - image families x ~30 chunkings with '
+             'oracles written from the layouts. Known findings F1, F3.',
         note='Trusted: pyvc VC generator, z3; A-STATIC; set iteration order '
              'of region sets taken as insertion order. The chunk-sequence '
              'induction (R-init, R-step => every chunking) is the standard '
@@ -57,8 +61,13 @@ CHECKS.update({
              '(refused iff incomplete or mismatching; SafetyCheckFailed keys '
              '= exactly the failing checks; ok iff none) proved for a '
              'symbolic stream; SafetyCheck.__call__ error-to-violation.',
-        note='Trusted: pyvc, z3, A-STATIC. VMDK descriptor/footer checks and '
-             'cli.main are covered by their own contract files when built.',
+        note='Trusted: pyvc, z3, A-STATIC, A-CODEC. Also under contract: VMDK '
+             'post_process guards, check_footer (iff), check_descriptor (iff, '
+             'descriptor lines as opaque predicate bundles), cli.main exit '
+             'status (exit 0 iff image exists, detection returned an '
+             'inspector and safety_check returned), wrapper decision table. '
+             'VMDK whole-stream verdicts and the CLI on disk are bounded '
+             'families. Known finding F1 (text-descriptor mode).',
         ref='DESIGN.md section 4 C02'),
     'C03': dict(
         text='Per-class signature soundness and totality: format_match and '
@@ -68,7 +77,10 @@ CHECKS.update({
              'InspectWrapper.formats/format: the full decision table over '
              'symbolic per-inspector complete/match booleans, finished flag, '
              'raw allowed or not and every set iteration order; '
-             'InspectWrapper.__init__ honours allowed_formats.',
+             'InspectWrapper.__init__ honours allowed_formats; VMDK/VHDX '
+             'format_match totality. BOUNDED: no-revision of an early '
+             'decision over real streams and detect_file_format (generator '
+             'with consumer-dependent early exit is outside the subset).',
         note='Trusted: pyvc, z3, A-STATIC.',
         ref='DESIGN.md section 4 C03'),
     'C06': dict(
@@ -332,7 +344,11 @@ CHECKS.update({
              'methods for any chunk; every fixed-layout inspector has the '
              'specified region table whose lengths sum to <= 512 KiB, and '
              'context_info reports exactly the retained lengths; proved '
-             'after __init__ and after an arbitrary eat_chunk.',
+             'after __init__ and after an arbitrary eat_chunk. VHDX and VMDK: '
+             'every dynamic region construction site is proved to clamp its '
+             'length (64 KiB table, item length <= 64 KiB, descriptor <= 1 '
+             'MiB - 1, 1536-byte footer window). BOUNDED: memory after every '
+             'chunk of hostile VHDX/VMDK streams.',
         note='Trusted: pyvc, z3, A-STATIC.',
         ref='DESIGN.md section 4 C05'),
     'C07': dict(
@@ -340,7 +356,12 @@ CHECKS.update({
              'the spec decoder of the ghost stream (big/little-endian field '
              'at the documented offset, ISO blocks x block size, LUKS length '
              '- 512*payload offset) over the full field range, and 0 while '
-             'the carrying region is incomplete or the signature is absent.',
+             'the carrying region is incomplete or the signature is absent. '
+             'VHDX: first-matching-entry semantics of both table walks for '
+             'every table size 0..2047 (loop invariants + quantified '
+             'postconditions), size = LE u64 of the item; VMDK: capacity '
+             'sectors x 512 when the descriptor declares a supported type. '
+             'BOUNDED: whole-stream VHDX/VMDK sizes over image families.',
         note='Trusted: pyvc, z3, A-STATIC; struct.unpack model (cross-checked '
              'against CPython by the native tier).',
         ref='DESIGN.md section 4 C07'),
